@@ -53,6 +53,17 @@ def check_raw(raw, cls='AnsiString'):
             v = AnsiString('wxyzwxyz', AnsiSetting('35'), AnsiSetting('4'))
             v.apply_formatting(AnsiSetting('41'), 1, 3)
             v.set_ansi_str(raw)
+        elif cls == 'again':
+            # the same input parsed a second time, after the first result has been edited in place and appended to:
+            # whatever the parser remembers of the first time must not show in the second
+            u = AnsiString(raw)
+            for edit in (lambda: u.apply_formatting(AnsiSetting('35')), lambda: u.remove_formatting(None, 0, 1),
+                         lambda: u.__iadd__(raw), lambda: u.clear_formatting()):
+                try:
+                    edit()
+                except Exception:  # noqa
+                    pass
+            v = AnsiString(raw)
         else:
             v = AnsiString(raw) if cls == 'AnsiString' else AnsiStr(raw)
         text, cells = model.alpha_codes(v)
@@ -174,7 +185,7 @@ def run_task(task, acc):
                     acc.state_count += 1
                     acc.transitions += 1
                     acc.current = {'raw': raw, 'cls': 'AnsiString'}
-                    amb, n = run_raw(raw, acc, ('AnsiString', 'AnsiStr', 'reuse'))
+                    amb, n = run_raw(raw, acc, ('again', 'AnsiString', 'AnsiStr', 'reuse'))
                     acc.nontrivial_count += 1
         return
     if k == 'code_pairs':
@@ -219,7 +230,7 @@ def run_task(task, acc):
         if sq:
             acc.transitions += 1
         acc.current = raw
-        classes = ('AnsiString', 'AnsiStr', 'reuse') if len(sq) <= ns else ('AnsiString',)
+        classes = ('again', 'AnsiString', 'AnsiStr', 'reuse') if len(sq) <= ns else ('AnsiString',)
         amb, n = run_raw(raw, acc, classes)
         if n:
             acc.nontrivial_count += 1
